@@ -98,7 +98,7 @@ def drive_exact(args):
             for kmax in ([1000, KMAXS[i % 6]] if tier == 'quick' else KMAXS):
                 dtype = torch.bool if kind == 'bool' else (torch.float64 if i % 2 else torch.float32)
                 proj = lambda t, kind=kind, dtype=dtype: AG.project_tensor(t, kind, dtype)
-                runs.append(one_run(lambda: AG.build_fgg(a, kind, dtype)[0], kind, srn, method, 1e-6, kmax, dtype, proj))
+                runs.append(one_run(lambda: AG.build_fgg(a, kind, dtype, start_last=(i % 3 == 1))[0], kind, srn, method, 1e-6, kmax, dtype, proj))
     return {'ag': {k: a[k] for k in ('nls', 'els', 'start', 'rules', 'w', 'wmp')}, 'runs': runs, 'q_hint': -1}
 
 
